@@ -279,7 +279,8 @@ func (w *World) onRemoval(kind, eniID string) {
 		}
 	default:
 		// ---- C11 O3: the leak collector
-		age := time.Since(e.Created)
+		// the API reports the creation time in whole seconds: that is the age the collector can know
+		age := time.Since(e.Created.Truncate(time.Second))
 		switch {
 		case !isOurs(e):
 			w.run.Violate("C11", "leak-gc", "collector-touched-foreign-interface", "%s of %s whose tags are %v", kind, eniID, e.Tags)
@@ -376,7 +377,18 @@ func (w *World) settle() {
 			if rec != nil {
 				got = compactRecord(rec)
 			}
-			w.run.Violate("C11", "fixed-ip", "recreated-pod-not-rebound", "fixed-IP pod %s was recreated (uid %s) %s ago while its record was kept, %s after faults stopped it is not bound to it; record: %s", p.spec.Name, p.uid, time.Since(p.created).Round(time.Second), settled, got)
+			fp := "recreated-pod-not-rebound"
+			if rec != nil && rec.Status.Phase == v1beta1.ENIPhaseBinding {
+				for _, a := range rec.Spec.Allocations {
+					if e := w.cloud.enis[a.ENI.ID]; e != nil && e.Instance != "" && e.Instance != instanceOf(p.node) {
+						// K9: an earlier attach (for a pod instance on another node) went through, its
+						// status write did not; nobody detaches the interface from that node any more
+						fp += "@interface-left-attached-to-another-node"
+						break
+					}
+				}
+			}
+			w.run.Violate("C11", "fixed-ip", fp, "fixed-IP pod %s was recreated (uid %s) %s ago while its record was kept, %s after faults stopped it is not bound to it; record: %s", p.spec.Name, p.uid, time.Since(p.created).Round(time.Second), settled, got)
 		}
 	}
 	// C10 conservation: no interface of ours without a record (the leak collector has had the time)
